@@ -2,8 +2,40 @@
 //! C19: the order of copier-thread spawns and joins inside `write_child_process_output`
 //! (libherokubuildpack/src/command.rs), whether they all sit inside one `thread::scope(..)` closure, and whether the
 //! closure of every spawned copier is exactly `std::io::copy(reader, writer)`.
+//! C19, return point: every call of `wait` / `try_wait` / `wait_with_output` (method call or path, e.g. `Child::wait`) in the body of
+//! `spawn_and_write_streams` or of a function of command.rs it mentions (by call, as a function value, or as a method), transitively.
 use crate::*;
 use syn::visit::Visit;
+
+const WAITS: &[&str] = &["wait", "try_wait", "wait_with_output"];
+
+/// names mentioned in a body: method names and last path segments, in source order
+struct Mentions { names: Vec<String> }
+impl<'ast> Visit<'ast> for Mentions {
+    fn visit_expr_method_call(&mut self, m: &'ast syn::ExprMethodCall) { self.names.push(m.method.to_string()); syn::visit::visit_expr_method_call(self, m); }
+    fn visit_expr_path(&mut self, p: &'ast syn::ExprPath) { if let Some(s) = p.path.segments.last() { self.names.push(s.ident.to_string()); } }
+    fn visit_item_fn(&mut self, _: &'ast syn::ItemFn) {}
+}
+
+/// `<fn>:<call>` for every wait-like call reachable from `start` through the functions of this file
+fn wait_calls(f: &syn::File, start: &str) -> Vec<String> {
+    let (mut todo, mut seen, mut found) = (vec![start.to_string()], vec![], vec![]);
+    while let Some(name) = todo.pop() {
+        if seen.contains(&name) { continue; }
+        seen.push(name.clone());
+        for body in find_fns(f, &name) {
+            let mut m = Mentions { names: vec![] };
+            m.visit_block(&body);
+            for n in m.names {
+                if WAITS.contains(&n.as_str()) { found.push(format!("{name}:{n}")); }
+                else if !find_fns(f, &n).is_empty() { todo.push(n); }
+            }
+        }
+    }
+    found.sort();
+    found.dedup();
+    found
+}
 
 #[derive(Clone, Copy, PartialEq)]
 enum Ev { Spawn, Join }
@@ -67,6 +99,7 @@ pub fn sites(ctx: &mut Ctx) -> Option<String> {
             v.visit_block(&fns[0]);
             // the callers must reach it: spawn_and_write_streams calls it, output_and_write_streams calls spawn_and_write_streams
             let calls = |name: &str, callee: &str| find_fns(&f, name).iter().any(|b| norm(b).contains(callee));
+            if find_fns(&f, "spawn_and_write_streams").len() != 1 { ctx.broken.push(format!("spawnWaitCalls: expected one fn body spawn_and_write_streams in libherokubuildpack/src/command.rs, found {}", find_fns(&f, "spawn_and_write_streams").len())); }
             if v.evs.is_empty() { ctx.broken.push("copierEvents: no thread spawn/join found in write_child_process_output".into()); }
             else if !calls("spawn_and_write_streams", "write_child_process_output(") || !calls("output_and_write_streams", "spawn_and_write_streams(") {
                 ctx.broken.push("copierEvents: output_and_write_streams -> spawn_and_write_streams -> write_child_process_output call chain not found".into());
@@ -83,6 +116,9 @@ pub fn sites(ctx: &mut Ctx) -> Option<String> {
                 writeln!(o, "inductive CopyBody | ioCopy\nderiving DecidableEq, Repr\n").unwrap();
                 writeln!(o, "/-- the body of each spawned copier closure, in source order: `.ioCopy` = exactly `std::io::copy(<reader>, <writer>)` -/").unwrap();
                 writeln!(o, "def copierBodies : List CopyBody := [{}]\n", v.bodies.iter().map(|_| ".ioCopy").collect::<Vec<_>>().join(", ")).unwrap();
+                writeln!(o, "/-- `spawn_and_write_streams` and the functions of command.rs it mentions, transitively: every `wait` / `try_wait` / `wait_with_output` call, as `<fn>:<call>` (none = the call hands the child back without waiting for its exit) -/").unwrap();
+                writeln!(o, "def spawnWaitCalls : List String := [{}]\n", wait_calls(&f, "spawn_and_write_streams").iter().map(|c| format!("{c:?}")).collect::<Vec<_>>().join(", ")).unwrap();
+                ctx.items.push("Sites.spawnWaitCalls <- libherokubuildpack/src/command.rs spawn_and_write_streams (+ the local functions it mentions)".into());
                 ctx.items.push("Sites.copierBodies <- libherokubuildpack/src/command.rs write_child_process_output (closures handed to spawn)".into());
                 ctx.items.push("Sites.copierEvents, Sites.copiersInOneScope <- libherokubuildpack/src/command.rs write_child_process_output".into());
             }
